@@ -8,6 +8,7 @@ import (
 	"strings"
 	"time"
 
+	"github.com/free5gc/go-upf/internal/verif/deepdump"
 	"github.com/free5gc/go-upf/internal/verif/gstate"
 )
 
@@ -61,6 +62,14 @@ func (s *Server) VGroups() map[time.Duration][][2]uint64 {
 		out[p] = l
 	}
 	return out
+}
+
+// VExtra renders state of the server that VGroups does not know (fields added by a change to the code).
+func (s *Server) VExtra() string {
+	return deepdump.Extra(s, deepdump.Known{
+		"perio.Server":     {"evtCh!", "perioList", "handler!", "queryURR!"},
+		"perio.PERIOGroup": {"urrids", "period", "ticker!", "stopCh!"},
+	})
 }
 
 // VTickers counts live ticker goroutines (by their function name in the goroutine dump).
